@@ -444,7 +444,7 @@ pub fn run(ctx: &Ctx) {
         exhaustive_subsets(ctx, q, r, o);
     }
     if !ctx.failed() {
-        ctx.run_random(&Random, t.pick(10_000, 400_000), move || strategy(t));
+        ctx.run_random(&Random, t.pick(300_000, 3_000_000), move || strategy(t));
         ctx.require_class("random_history", "table_full", 0.1);
         ctx.require_class("random_history", "wraps_ring_end", 0.03);
         ctx.require_class("random_history", "shifted_run", 0.2);
